@@ -18,6 +18,7 @@ class UserK { fn m(self, a) { return a; } #[static] fn s() { return 1; } }
 #[derive(Error)] class UErr { #[constructor] fn new(self, m) { super.new(m); } }
 var selfvec = [1]; selfvec.push(selfvec);
 var selfmap = {}; selfmap.insert(1, selfmap);
+var badtuple = (1, [2]); var badtuple2 = ((1, 2), ({}, 3));
 var selftuple_inner = [2]; var selftuple = (1, selftuple_inner); selftuple_inner.push(selftuple);
 var f0 = || 1; var f1 = |a| a; var f2 = |a, b| [a, b];
 var fiber_new = Fiber.new(|| { Fiber.yield(1); return 2; });
@@ -37,12 +38,16 @@ MODS = [("hostmod", "var v = 1;\nfn f(a) { return a; }\n")]
 
 POOL = ["nil", "true", "false", "0", "-0", "1", "-1", "0.5", "255", "256", "2147483648", "9007199254740993", "9223372036854775808",
         "-9223372036854775808", "(1 / 0)", "(-1 / 0)", "(0 / 0)", "1" + "0" * 308, "\"\"", "\"a\"", "\"é\"", "\"€😀x\"", "longstr", "[]", "[1]",
-        "[1, [2, [3]]]", "selfvec", "()", "(1,)", "(1, (2, 3))", "selftuple", "{}", "{1: 2}", "selfmap", "0..0", "0..3", "3..0", "-2..2",
+        "[1, [2, [3]]]", "selfvec", "()", "(1,)", "(1, (2, 3))", "selftuple", "badtuple", "badtuple2", "{}", "{1: 2}", "selfmap", "0..0", "0..3", "3..0", "-2..2",
         "0..9223372036854775807", "f0", "f1", "f2", "print", "type", "\"a\".len", "[1].push", "inst.m", "String", "Vec", "UserK", "Fiber", "Type",
         "inst", "DString.new()", "DVec.new()", "DMap.new()", "DFiber.make()", "DIter.new()", "hostmod", "fiber_new", "fiber_susp", "fiber_done",
         "it_fresh", "it_done", "sit", "rit", "tit", "mapit", "filtit", "stop", "err_inst", "caught", "deep", "bigvec", "UErr"]
-ARGS = [p for p in POOL if p not in ("0..9223372036854775807",)]
-NO_COLLECT = {"0..9223372036854775807"}
+POOL_EXPRS = POOL
+POOL = ["pv%d" % i for i in range(len(POOL_EXPRS))]
+POOL_PRELUDE = POOL_PRELUDE + "".join("var pv%d = %s;\n" % (i, e) for i, e in enumerate(POOL_EXPRS))
+HUGE = "pv%d" % POOL_EXPRS.index("0..9223372036854775807")
+ARGS = [p for p in POOL if p != HUGE]
+NO_COLLECT = {HUGE}
 
 
 def method_names():
@@ -101,7 +106,11 @@ def operator_programs(rng, quick):
         lines.append("try { print(String.from(%s).len() >= 0); } catch e { print(type(e)); }" % a)
         lines.append("try { throw %s; } catch e { print(type(e)); }" % a)
         lines.append("try { var m = {%s: 1}; print(m.len()); } catch e { print(type(e)); }" % a)
-        lines.append("try { #[derive(%s)] class Sub {} print(\"declared\"); } catch e { print(type(e)); }" % a if re.match(r"^\w+$", a) else "print(1);")
+        # the same object offered as a key repeatedly, through every keyed operation
+        lines.append("{ var km = {}; " + " ".join("try { print(type(km.%s)); } catch e { print(type(e)); }" % op for op in [
+            "insert(%s, 1)" % a, "insert(%s, 2)" % a, "has_key(%s)" % a, "get(%s)" % a, "remove(%s)" % a, "insert((0, %s), 3)" % a,
+            "has_key((0, %s))" % a]) + " try { print(type({%s: 1, %s: 2})); } catch e { print(type(e)); } print(km.len()); }" % (a, a))
+        lines.append("try { #[derive(%s)] class Sub {} print(\"declared\"); } catch e { print(type(e)); }" % a)
         others = pool if not quick else rng.sample(pool, 6)
         for b in others:
             op = rng.choice(BINOPS)
